@@ -110,7 +110,7 @@ theorem verify_ok_acceptable (d : Def) (side : Side) (s : Store) (now : Nat) (vp
                     · rename_i hver
                       refine ⟨subj, e, ?_⟩
                       have hj : vp.jwt = true := by cases hv : vp.jwt <;> simp_all
-                      refine ⟨hj, ⟨i, hid⟩, ?_, hexp, by omega, ⟨m, hsig, ?_⟩, hver, ?_, ?_⟩
+                      refine ⟨hj, ⟨i, hid⟩, ?_, hexp, by omega, ⟨m, hsig, ?_⟩, (by simp only [Bool.and_eq_true] at hver; exact hver.1), (by simp only [Bool.and_eq_true] at hver; exact hver.2), ?_, ?_⟩
                       · simpa using haud
                       · cases hm : d.didMethods with
                         | nil => exact Or.inl rfl
@@ -143,7 +143,7 @@ theorem verify_ok_acceptable (d : Def) (side : Side) (s : Store) (now : Nat) (vp
       · exact h
     have hl : ¬ (now + d.maxValidity < e) := by have := hA.within; omega
     unfold verify
-    simp [hA.jwt, hid, hA.addressed, hA.exp, hl, hsig, hbody, hA.verifiable]
+    simp [hA.jwt, hid, hA.addressed, hA.exp, hl, hsig, hbody, hA.verifiable, hA.available]
     exact hm
 
 /-! ### `add` and `Register` -/
@@ -295,6 +295,7 @@ theorem step_server (cfg : Cfg) (d : Def) (w : World) (e : Ev) :
     unfold step
     cases w.pending <;> simp
   | validate => left; simp [step]
+  | clientVerifier up => left; simp [step]
 
 theorem serverOK_register (d : Def) (s : Store) (t fresh : Nat) (vp : VP) (hf : fresh ≠ 0)
     (hi : SInv s) (hl : ∀ r ∈ s.rows, Listed d t r) :
@@ -960,6 +961,14 @@ theorem winv_pollB {K : VP → Prop} (hK : IdFun K) (cfg : Cfg) (hsf : cfg.servi
         omega
 
 
+theorem winv_clientVerifier {K : VP → Prop} (cfg : Cfg) (d : Def) (w : World) (up : Bool) (h : WInv K w) :
+    WInv K (step cfg d w (.clientVerifier up)).1 := by
+  show WInv K { w with C := { w.C with verifierUp := up } }
+  have hc : PA K { w.C with verifierUp := up } := ⟨h.cli.wf, h.cli.k, h.cli.one⟩
+  exact ⟨h.srv, h.sK, hc, h.cz, h.sLe, h.cLe,
+    fun p hp => let q := h.pend p hp; ⟨q.after, q.le, q.zero, q.bound⟩,
+    fun hs => let q := h.sync hs; ⟨q.1, q.2.1, q.2.2⟩⟩
+
 /-! ### admissible histories -/
 
 theorem winv_step {K : VP → Prop} (hK : IdFun K) (cfg : Cfg) (hsf : cfg.serviceFirst = true) (hrw : cfg.restartOnWipe = true)
@@ -971,6 +980,7 @@ theorem winv_step {K : VP → Prop} (hK : IdFun K) (cfg : Cfg) (hsf : cfg.servic
   | pollA => exact winv_pollA cfg hsf d w h
   | pollB perm => exact winv_pollB hK cfg hsf hrw d w perm he h
   | validate => exact winv_validate cfg d w h
+  | clientVerifier up => exact winv_clientVerifier cfg d w up h
 
 theorem winv_reach {K : VP → Prop} (hK : IdFun K) (cfg : Cfg) (hsf : cfg.serviceFirst = true) (hrw : cfg.restartOnWipe = true)
     (d : Def) {w : World} (h : Reach cfg d K w) : WInv K w := by
@@ -1286,6 +1296,7 @@ theorem srchInv_step (cfg : Cfg) (hsf : cfg.serviceFirst = true) (hrw : cfg.rest
   | reset => exact h.cv
   | pollA => exact h.cv
   | validate => exact cv_validate h.cv
+  | clientVerifier up => exact ⟨h.cv.rowsLt, h.cv.valLt, h.cv.inj, h.cv.ver⟩
   | pollB perm =>
     unfold step
     cases hp : w.pending with
